@@ -33,7 +33,7 @@ def jobs(tier):
             j.canary = False
             j.imported = True
             J.append(j)
-    for j in C16.jobs("quick"):
+    for j in C16.jobs("quick", imports=False):
         if re.match(r"(add_calibration|delete_calibration|query_calibration)\.alloc(1|8)$", j.name) or \
                 re.match(r"(delete_parameter|make_parameter)\.alloc(3|8_live4)", j.name):
             j.name = "vnacal." + j.name
